@@ -49,7 +49,9 @@ def correct_last_timing(c):
 # ------------------------------------------------------------------------------------ bounded part
 
 TEXTS = ["HELLO THERE", "GENERAL KENOBI", "YOU ARE A BOLD ONE", "OK", "A", "it's 5 o'clock.", "One, two!", "x y z",
-         "THE QUICK BROWN FOX JUMPS", "over", "12345 67890"]
+         "THE QUICK BROWN FOX JUMPS", "over", "12345 67890",
+         "A ROW OF EXACTLY THIRTY-TWO CHAR", "thirty-one characters in this row"[:31], "ABCDEFGHIJKLMNOPQRSTUVWXYZ012345"]
+assert [len(t_) for t_ in TEXTS[-3:]] == [32, 31, 32]
 
 
 def norm(s):
